@@ -61,7 +61,8 @@ func Harness_C09_verify() {
 		chain.state = ctypes.CertificateRevoked
 	}
 	// the genuine certificate: key 1, self-signed, published by X
-	genuine := verif_CertDER(X, X, S, 1, 1, true, true)
+	gvb, gvh := verif_Bool("genuine-valid-at-start"), verif_Bool("genuine-valid-at-handshake")
+	genuine := verif_CertDERT(X, X, S, 1, 1, gvb, gvh, true)
 	chain.pem = verif_DERToPEM(genuine)
 
 	// the presented certificate: every field arbitrary
@@ -78,8 +79,8 @@ func Harness_C09_verify() {
 	}
 	key := 1 + verif_Choice("key", 2)       // 1 = the key of the on-chain certificate, 2 = another key
 	signer := 1 + verif_Choice("signer", 2) // who signed the presented certificate
-	validNow, clientAuth := verif_Bool("valid-now"), verif_Bool("client-auth")
-	presented := verif_CertDER(cn, issuer, serial, key, signer, validNow, clientAuth)
+	validStart, validNow, clientAuth := verif_Bool("valid-at-start"), verif_Bool("valid-now"), verif_Bool("client-auth")
+	presented := verif_CertDERT(cn, issuer, serial, key, signer, validStart, validNow, clientAuth)
 	isGenuine := verif_Choice("present-genuine", 2) == 1
 	if isGenuine {
 		presented = genuine // the client holds the very certificate that is on chain
@@ -90,11 +91,13 @@ func Harness_C09_verify() {
 		raw = append(raw, presented)
 	}
 
+	verif_SetEpoch(1) // the gateway starts
 	cfg, err := NewServerTLSConfig(context.Background(), nil, c09query{c: chain})
 	verif_Assert(err == nil && cfg != nil && cfg.VerifyPeerCertificate != nil, "C09 the gateway installs a peer-certificate verifier")
 	if err != nil || cfg == nil {
 		return
 	}
+	verif_SetEpoch(2) // later: a client connects
 	verr := cfg.VerifyPeerCertificate(raw, nil)
 	if nchain == 0 {
 		verif_Reach("no-certificate") // unauthenticated connection: request middleware rejects it later
@@ -109,6 +112,7 @@ func Harness_C09_verify() {
 	if isGenuine {
 		verif_Reach("genuine-accepted")
 		verif_Assert(chain.present && chain.state == ctypes.CertificateValid, "C09 a revoked certificate is rejected")
+		verif_Assert(gvh, "C09 an expired, not-yet-valid or wrong-usage certificate is rejected")
 		return
 	}
 	verif_Assert(cn == X && chain.present, "C09 a client is treated as account X only with a certificate X published on chain")
